@@ -14,7 +14,7 @@ type c10Gen struct {
 	firstCol, firstVal, firstPh bool
 	maxVal                      int
 	nleaf                       int
-	unary                       int // single-operand AND/OR wrappers still available
+	unary                       int  // single-operand AND/OR wrappers still available
 	simple                      bool // shape sweep: the first leaf is a 1-byte column with a 1-byte symbolic value
 }
 
